@@ -21,7 +21,7 @@ def run(ctx):
     tpairs.run_tpairs(ctx, "C13", only=lambda t: "PUT" in t and "TDELETE" not in t and "TEXIT" not in t, sample=150 if ctx.quick else None)
     n = 16 if ctx.quick else 120
     # (timing: TOUCH patterns that run into max-msg-timeout, REQ beyond max-req-timeout, mixed msg_timeouts)
-    corelib.run_modes(ctx, "C13", [("core", n), ("contend", n // 2), ("timing", n // 2)])
+    corelib.run_modes(ctx, "C13", [("core", n), ("contend", n // 2), ("timing", n // 2), ("flow", n // 2)])
     corelib.repo_tests(ctx, "C13")
     ctx.cov["distinct_nontrivial"] = len(ctx.notes.get("event_kinds", {}))
     ctx.cov["rule"] = ("evaluations = hook/harness events of real executions checked step by step by TLC against "
